@@ -45,7 +45,8 @@ theorem lookupAssoc_mem {α : Type} {n : String} {c : α} : ∀ {l : List (Strin
     · exact List.mem_cons_of_mem _ (lookupAssoc_mem h)
 
 /-- **a well-formed state is related to itself**, for every closure-body relation that is reflexive -/
-theorem SRel.ofWF {Q : QRel} (hq : QRefl Q) {σ : State N} (h : State.WF σ) : SRel Q cx (idRel σ) σ σ where
+theorem SRel.ofWF {Q : QRel} {cx : Cx} (hq : QRefl Q) {σ : State N} (h : State.WF σ) (hI : cx.I N (idRel σ) σ σ) :
+    SRel Q cx (idRel σ) σ σ where
   globals := forall2_self _ fun p hp => ⟨rfl, VRel.ofInRange (h.globals p hp)⟩
   trace := rfl
   injC := fun h1 h2 => by obtain ⟨rfl, _⟩ := h1; obtain ⟨rfl, _⟩ := h2; exact Iff.rfl
@@ -76,6 +77,9 @@ theorem SRel.ofWF {Q : QRel} (hq : QRefl Q) {σ : State N} (h : State.WF σ) : S
   front := ⟨Nat.zero_le _, Nat.zero_le _, Nat.zero_le _, Nat.zero_le _, Nat.zero_le _, Nat.zero_le _⟩
   pin := fun _ hp => by cases hp
   pinR := fun _ hp => by cases hp
+  pinT := fun _ hp => by cases hp
+  pinC := fun _ hp => by cases hp
+  inv := hI
 
 theorem inRange_libTable (σ : State N) (pre : String) (names : List String) :
     ∀ p ∈ (libTable (N := N) pre names).entries, Val.inRange σ p.1 ∧ Val.inRange σ p.2 := by
